@@ -54,7 +54,8 @@ func ttmlWithDefs(cues []cueSpec, tag string) []byte {
 	}
 	var buf bytes.Buffer
 	if len(s.Items) == 0 || s.WriteToTTML(&buf) != nil {
-		return []byte(`<tt xmlns="http://www.w3.org/ns/ttml"><head><styling><style xml:id="s1"/></styling></head><body><div></div></body></tt>`)
+		// no cue: the writer refuses such a list, the document is written by hand (same definitions)
+		return []byte(`<tt xmlns="http://www.w3.org/ns/ttml" xmlns:tts="http://www.w3.org/ns/ttml#styling"><head><styling><style xml:id="s1" tts:color="` + col + `"/><style xml:id="only` + tag + `" style="s1" tts:color="` + col + `"/></styling><layout><region xml:id="r` + tag + `" tts:origin="10% 80%"/></layout></head><body><div></div></body></tt>`)
 	}
 	return buf.Bytes()
 }
@@ -147,6 +148,7 @@ func checkOpCLI(c opCLICase) string {
 	}
 	out, cliErr := exec.Command(cli, append(args, "-o", cliOut)...).CombinedOutput()
 	ctx := fmt.Sprintf("astisub %s (in: %s%s)", strings.Join(args[:1], " ")+" "+strings.Join(args[3:], " "), fmtSpecs(c.Cues), map[bool]string{true: " other: " + fmtSpecs(c.Other), false: ""}[c.Sub == "merge"])
+	ctx = strings.ReplaceAll(ctx, dir+string(filepath.Separator), "")
 	if (libErr == nil) != (cliErr == nil) {
 		return fmt.Sprintf("%s: the command-line tool %s while the same step through the library %s\n%s", ctx,
 			map[bool]string{true: "succeeded", false: "failed (" + fmt.Sprint(cliErr) + ")"}[cliErr == nil],
@@ -208,6 +210,10 @@ func cliCases(t *testing.T, pid, sub string) {
 		}
 		if rapid.IntRange(0, 2).Draw(rt, "defs") == 0 {
 			c.Defs, c.Ext = true, rapid.SampledFrom([]string{"ttml", "TTML", "Ttml"}).Draw(rt, "defsext")
+		}
+		if sub == "merge" && c.Defs && rapid.IntRange(0, 2).Draw(rt, "nocues") == 0 {
+			// a first input that carries definitions and no cue
+			c.Cues = nil
 		}
 		c.Extra = rapid.IntRange(0, 3).Draw(rt, "extraflags") == 0
 		if sub == "fragment" || sub == "unfragment" {
